@@ -174,8 +174,19 @@ impl Backend for Ark {
         }
     }
     fn affine_roundtrip(a: &Self::E) -> Self::E {
-        use ark_ec::{AffineRepr, CurveGroup};
-        a.into_affine().into_group()
+        use ark_ec::{AffineRepr, CurveGroup, ScalarMul};
+        type AA = <ark::Element as CurveGroup>::Affine;
+        // every route from Element to AffinePoint and back, chosen by a bit pattern of the element
+        let sel = a.verif_xyzt()[0].to_bytes_le()[0] % 6;
+        match sel {
+            0 => a.into_affine().into_group(),
+            1 => ark::Element::from(AA::from(a)),
+            2 => ark::Element::from(&AA::from(*a)),
+            // batch routes, in a batch that mixes Z = 1 and Z != 1 elements
+            3 => ark::Element::normalize_batch(&[ark::Element::GENERATOR, *a, *a + *a])[1].into_group(),
+            4 => ark::Element::batch_convert_to_mul_base(&[*a + ark::Element::GENERATOR, *a, ark::Element::IDENTITY])[1].into_group(),
+            _ => ark::Element::normalize_batch(&[*a])[0].into(),
+        }
     }
     fn coords(e: &Self::E) -> [N; 4] {
         let c = e.verif_xyzt();
